@@ -137,7 +137,10 @@ def cases(draw, tier="quick"):
     o = dict(comp=draw(st.sampled_from(["gzip", "zstd", "lz4"])), B=B, no_keep_time=False, no_xattr=False, no_skip=False, T=False, e=False,
              j=draw(st.sampled_from([None, 1, 2])), defaults={}, source_date_epoch=None)
     s2t_codec = draw(st.sampled_from(CODECS))
-    return dict(archive=ar, codec=codec, level=level, splits=splits, trailing=trailing, chunk=chunk, damage=damage, opts=o, s2t_codec=s2t_codec)
+    # sqfs2tar output padded (by one extra file) to land on / next to a multiple of the 256 KiB buffer of the compressing output stream
+    s2t_pad = draw(st.sampled_from([None, None, None, None, 0, 0, 0, -512, 512, 131072]))
+    return dict(archive=ar, codec=codec, level=level, splits=splits, trailing=trailing, chunk=chunk, damage=damage, opts=o, s2t_codec=s2t_codec,
+                s2t_pad=s2t_pad, s2t_mult=draw(st.sampled_from([1, 1, 2])), s2t_kind=draw(st.sampled_from(["rand", "text"])))
 
 
 def feed(cmd, data, chunk, timeout=40, env=None):
@@ -293,6 +296,25 @@ def check_case(case, opts):
         # ---- sqfs2tar -c X
         s2t = vcommon.tool("asan", "sqfs2tar")
         ra = vcommon.run([s2t, ref], timeout=40)
+        pad = case.get("s2t_pad")
+        if pad is not None and ra.rc == 0 and not ra.timeout:
+            base = len(ra.out) + 512
+            want = ((base - pad + 262143) // 262144) * 262144 + pad + (case.get("s2t_mult", 1) - 1) * 262144
+            if want < base:
+                want += 262144
+            extra = dict(name=b"zz-s2t-pad", type="file", mode=0o644, uid=0, gid=0, mtime=5, xattrs={},
+                         data=treemodel.content_bytes((case.get("s2t_kind", "rand"), 9, 0, want - base), 4096), enc=dict(fmt="ustar", num="octal", ostyle=0))
+            try:
+                plain2 = tarimg.encode_archive(ar["entries"] + [extra], True, ar["global_pax"], 0)
+                ref2 = os.path.join(sc, "ref2.sqfs")
+                r2 = c04.run_t2s(plain2, o, ref2)
+                if r2.rc == 0 and not r2.timeout:
+                    ra2 = vcommon.run([s2t, ref2], timeout=40)
+                    if ra2.rc == 0 and len(ra2.out) == want:
+                        ref, ra = ref2, ra2
+                        classes.append("s2t_output_%s" % ("multiple_of_256k" if pad == 0 else "256k%+d" % pad))
+            except (OverflowError, treemodel.Unrepresentable):
+                pass
         rc_ = vcommon.run([s2t, "-c", case["s2t_codec"], ref], timeout=40)
         for rr in (ra, rc_):
             if rr.timeout or rr.sanitizer() or rr.rc != 0:
